@@ -30,7 +30,7 @@ def meta(tier):
         'level': 'exploration',
         'rule': ('every library function except clock/random/fetch x seeded argument lists (75% steered by the function\'s argument '
                  'model so that valid calls dominate, 25% unguided; 0-5 values of all types, numbers integral with |n| < 1e15 plus '
-                 'fractions), each executed with the int spelling and with the float spelling (recursively inside arrays/objects); '
+                 'fractions), each executed with the int spelling, with the float spelling (recursively inside arrays/objects) and twice with both spellings mixed inside one call; directed aggregations over measures near 1e15 and thousands of epoch-millisecond values (sums beyond 2**53); '
                  'all 14 binary and 2 unary operators on an integral operand grid in the four int/float spellings; scripts whose '
                  'for-loop index and float literals feed index/count/size/radix/digit positions. Non-trivial: the argument list '
                  'contains an integral number and the int-spelling call did not fail validation; distinct = distinct (function, arguments).'),
@@ -60,6 +60,11 @@ def conv(v, f):
     if isinstance(v, dict):
         return {k: conv(x, f) for k, x in v.items()}
     return v
+
+
+def conv_mixed(v, rnd):
+    """Every integral occurrence independently in the int or the float spelling (one call sees both spellings of one number)."""
+    return conv(v, lambda x: (int if rnd.random() < 0.5 else float)(x))
 
 
 def has_integral(v):
@@ -223,6 +228,29 @@ def one_case(name, args, acc, api):
         return
     if not eq12(a1, a2):
         acc.violation('int-float-argument-effect-differs', f'{name}({args!r:.300}): arguments after the call {a1!r:.300} vs {a2!r:.300}', case)
+        return
+    # both spellings inside ONE call (jsonParse rows next to literal rows): still the same outcome
+    for k in range(2):
+        a3 = conv_mixed(copy.deepcopy(args), random.Random(refval_hash(name, args) + k))
+        shown = repr(a3)
+        r3 = call(name, a3, api)
+        if r3[0] == 'timeout':
+            acc.timeouts += 1
+            return
+        acc.count('mixed_spelling_calls')
+        if not same_outcome(r3, r2):
+            if classify(name, args, r3, r2) or classify(name, args, r1, r3):
+                acc.known_finding('F15', f'{name}({args!r:.120}) mixed spelling')
+            else:
+                acc.violation('mixed-int-float-result-differs', f'{name}({shown:.300}): mixed spellings -> {r3!r:.300}; float spelling -> {r2!r:.300}', case)
+            return
+        if not eq12(a3, a2):
+            acc.violation('mixed-int-float-argument-effect-differs', f'{name}({shown:.300}): arguments after the call {a3!r:.300} vs {a2!r:.300}', case)
+            return
+
+
+def refval_hash(name, args):
+    return core.case_hash((name, repr(refval.canon(args))))
 
 
 def run_library(spec, acc, api):
@@ -255,6 +283,16 @@ def run_library(spec, acc, api):
             args = [gen_any(rnd) for _ in range(rnd.randint(0, 5))]
         one_case(name, args, acc, api)
     # directed witnesses (digit counts >= 23 for finding F15; index/count positions)
+    big = 999999999999999
+    for nrows, step in ((3, 1), (11, 0), (11, 1), (13, 0), (13, 7), (27, 0), (27, 3)):
+        rows = [{'a': big - step * (i % 3), 'c': i % 2, 'd': 1} for i in range(nrows)]
+        for fn in ('average', 'stddev', 'sum', 'min', 'max', 'count'):
+            one_case('dataAggregate', [copy.deepcopy(rows), {'measures': [{'field': 'a', 'function': fn}]}], acc, api)
+            one_case('dataAggregate', [copy.deepcopy(rows), {'categories': ['c'], 'measures': [{'field': 'a', 'function': fn}, {'field': 'd', 'function': fn, 'name': 'e'}]}], acc, api)
+        one_case('dataTop', [copy.deepcopy(rows), 2, ['c']], acc, api)
+    stamps = [{'t': 1700000000000 + 86400000 * i, 'c': i % 3} for i in range(spec['n'] // 2 if spec['n'] < 8000 else 6500)]
+    for fn in ('average', 'stddev', 'sum'):
+        one_case('dataAggregate', [copy.deepcopy(stamps), {'categories': ['c'], 'measures': [{'field': 't', 'function': fn}]}], acc, api)
     for name, args in [('numberToFixed', [255, 28]), ('mathRound', [2.5, 25]), ('arraySet', [[1, 2, 3], 1, 9]), ('dataTop', [[{'a': 1}, {'a': 2}], 1]),
                        ('arrayNewSize', [3, 7]), ('stringRepeat', ['ab', 3]), ('numberParseInt', ['ff', 16]), ('datetimeNew', [2020, 14, 35, 25, 61, 61, 1001]),
                        ('arraySlice', [[1, 2, 3, 4], 1, 3]), ('stringSlice', ['abcdef', 2, 4]), ('stringCharCodeAt', ['abc', 1]), ('jsonStringify', [{'a': [1]}, 2]),
